@@ -4,7 +4,8 @@ from .ty import *
 
 
 class SpecFn:
-    def __init__(self, name, arg_tys, ret_ty, define=None, py=None, doc=""):
+    def __init__(self, name, arg_tys, ret_ty, define=None, py=None, doc="", opaque=False):
+        self.opaque = opaque   # definition is unfolded only in VCs of contracts that `reveal` it
         self.name, self.arg_tys, self.ret_ty = name, list(arg_tys), ret_ty
         self.decl = z3.Function(name, *[sort(t) for t in arg_tys], sort(ret_ty))
         self.define = define  # callable(*z3 terms) -> z3 term ; may mention self.decl (recursion)
@@ -91,10 +92,14 @@ class Contract:
     def __init__(self, key, params, returns=None, requires=(), ensures=(), raises=None, loops=None,
                  modifies=(), inline=(), witness=(), ghost=(), trusted=False, pure=False, note="",
                  raise_ensures=None, decreases=None, body=None, unroll=None, assume_valid=True,
-                 replay=None, props=(), lemmas=(), locals=None, hints=(), domains=None, gen=None, ghost_scope=None, no_runtime=False, bounded_only=False, depth=None):
+                 replay=None, props=(), lemmas=(), locals=None, hints=(), domains=None, gen=None, ghost_scope=None, no_runtime=False, bounded_only=False, depth=None, reveal=(), frame_only=False, param_values=None):
+        self.param_values = dict(param_values or {})   # parameters with a fixed (python-level) value, e.g. cls of a classmethod
+        self.reveal = list(reveal)        # opaque spec functions whose definitions these VCs may unfold
+        self.frame_only = frame_only      # loops without a stated invariant are cut with the trivial invariant (frame / exception analysis)
         self.depth = depth                # rounds of definitional unfolding for this function's VCs (None: portfolio 1,2,3)
         self.no_runtime = no_runtime      # no run-time cross-check (e.g. constructors whose receiver cannot be pre-built)
         self.bounded_only = bounded_only  # outside the verifier's reach: only the bounded stand-in runs
+        self.ghost = dict(ghost or {}) if not isinstance(ghost, (list, tuple)) else {}
         self.ghost_scope = ghost_scope     # for ghost client code: repo module whose names are in scope
         self.domains = dict(domains or {})   # generator hints for the run-time cross-check (param -> generator type)
         self.gen = gen
@@ -131,8 +136,8 @@ INLINE = set()  # keys of repo functions that are executed in place at call site
 CONSTS = {}     # extra named constants visible in contract expressions
 
 
-def specfn(name, arg_tys, ret_ty, define=None, py=None, doc=""):
-    f = SpecFn(name, arg_tys, ret_ty, define, py, doc)
+def specfn(name, arg_tys, ret_ty, define=None, py=None, doc="", opaque=False):
+    f = SpecFn(name, arg_tys, ret_ty, define, py, doc, opaque)
     SPEC[name] = f
     return f
 
